@@ -27,6 +27,11 @@ pub enum Op {
     IterAs,
     /// the complete Reader's `read()` (by `&mut self`): every remaining pair
     ReadAll,
+    /// a new iterator consumed through `Iterator::last()`: the last record if any record remains from the reader's
+    /// position, None otherwise; the reader is at the end afterwards
+    IterLast,
+    /// a new iterator consumed through `Iterator::count()`: the number of records from the reader's position
+    IterCount,
 }
 
 #[derive(Serialize, Deserialize, Debug, Clone, Hash)]
@@ -193,6 +198,45 @@ impl Model {
 }
 
 impl Model {
+    /// `last`: Some(what `last()` returned) or `count`: Some(what `count()` returned), on a new iterator.
+    fn consume_all(&mut self, last: Option<&Option<Result<Option<usize>, String>>>, count: Option<usize>) -> Result<(), String> {
+        let mut cands: Vec<usize> = self.pos.clone();
+        if !self.exact && !cands.contains(&0) {
+            cands.push(0);
+        }
+        let mut fits = false;
+        for p in cands {
+            let remaining = self.n.saturating_sub(p);
+            if let Some(got) = last {
+                match got {
+                    None => fits |= remaining == 0,
+                    Some(Ok(Some(r))) => fits |= remaining > 0 && *r == self.n - 1,
+                    Some(Ok(None)) => {}
+                    Some(Err(_)) => fits |= !self.exact,
+                }
+            }
+            if let Some(c) = count {
+                fits |= c == remaining;
+            }
+        }
+        if !fits {
+            return Err(format!(
+                "a new iterator consumed through {} but the reader was positioned at {:?}{} of {} records",
+                match (last, count) {
+                    (Some(g), _) => format!("last() returned {:?}", g),
+                    (_, Some(c)) => format!("count() returned {}", c),
+                    _ => String::new(),
+                },
+                self.pos,
+                if self.exact { "" } else { " (or may restart at 0)" },
+                self.n
+            ));
+        }
+        self.pos = vec![self.n];
+        self.exact = false;
+        Ok(())
+    }
+
     /// `got`: what `nth(s)` returned.
     fn skip_nth(&mut self, s: usize, got: &Option<Result<Option<usize>, String>>) -> Result<(), String> {
         let mut cands: Vec<usize> = self.pos.clone();
@@ -375,6 +419,18 @@ fn drive_shape_reader_ref<T: std::io::Read + std::io::Seek>(r: &mut ShapeReader<
                 }
             }
             Op::ReadAll => {}
+            Op::IterLast => {
+                let got = r.iter_shapes().last().map(|x| x.map(|sh| ident(&sh)).map_err(|e| err_str(&e)));
+                if let Err(m) = model.consume_all(Some(&got), None) {
+                    fail!("iteration-sequence", "{}: {}", whole(&c.ops, k), m);
+                }
+            }
+            Op::IterCount => {
+                let got = r.iter_shapes().count();
+                if let Err(m) = model.consume_all(None, Some(got)) {
+                    fail!("iteration-sequence", "{}: {}", whole(&c.ops, k), m);
+                }
+            }
             Op::IterAs => {
                 let first = r.iter_shapes_as::<shapefile::Multipoint>().next();
                 model.typed_miss(matches!(first, Some(Err(_))), first.is_none(), with_index).map_err(|m| Fail::new("iteration-sequence", format!("{}: {}", whole(&c.ops, k), m)))?;
@@ -455,7 +511,7 @@ impl Prop for Histories {
         let mut seen_partial = false;
         let mut seen_seek = false;
         for (k, op) in c.ops.iter().enumerate() {
-            if matches!(op, Op::Iter(_) | Op::IterSkip(_)) {
+            if matches!(op, Op::Iter(_) | Op::IterSkip(_) | Op::IterLast | Op::IterCount) {
                 if seen_partial || seen_seek {
                     ctx.nontrivial();
                 }
@@ -552,7 +608,7 @@ impl Prop for Histories {
                                 fail!("iteration-sequence", "{}: read(): {}", whole(&c.ops, k), m);
                             }
                         }
-                        Op::Nth(_) | Op::NthAs(_) | Op::IterAs => {}
+                        Op::Nth(_) | Op::NthAs(_) | Op::IterAs | Op::IterLast | Op::IterCount => {}
                     }
                 }
             }
@@ -631,7 +687,7 @@ impl Prop for Histories {
                                 fail!("iteration-sequence", "{}: read(): {}", whole(&c.ops, k), m);
                             }
                         }
-                        Op::Nth(_) | Op::NthAs(_) | Op::IterAs => {}
+                        Op::Nth(_) | Op::NthAs(_) | Op::IterAs | Op::IterLast | Op::IterCount => {}
                         }
                     }
                 }
@@ -677,7 +733,7 @@ impl Prop for Histories {
                                 fail!("iteration-sequence", "{}: read(): {}", whole(&c.ops, k), m);
                             }
                         }
-                        Op::Nth(_) | Op::NthAs(_) | Op::IterAs => {}
+                        Op::Nth(_) | Op::NthAs(_) | Op::IterAs | Op::IterLast | Op::IterCount => {}
                     }
                 }
             }
@@ -781,6 +837,21 @@ impl EnumProp for Histories {
                 }
                 for l in 1..=len {
                     blocks.push(Block { n, equal, layout: 0, reader: 4, alphabet: a1.clone(), len: l });
+                }
+                // iterators consumed through last() / count() (methods an iterator may override): in memory with and
+                // without index, and by path
+                let mut a0l = vec![Op::Iter(1), Op::Iter(255), Op::IterLast, Op::IterCount, Op::IterSkip(0), Op::Nth(0)];
+                for i in 0..=n {
+                    a0l.push(Op::Seek(i));
+                }
+                let a2l = vec![Op::Iter(1), Op::Iter(255), Op::IterLast, Op::IterCount, Op::IterSkip(1)];
+                for l in 1..=len - 1 {
+                    blocks.push(Block { n, equal, layout: 0, reader: 0, alphabet: a0l.clone(), len: l });
+                    blocks.push(Block { n, equal, layout: 1, reader: 0, alphabet: a0l.clone(), len: l });
+                    blocks.push(Block { n, equal, layout: 0, reader: 2, alphabet: a2l.clone(), len: l + 1 });
+                }
+                for l in 1..=len - 2 {
+                    blocks.push(Block { n, equal, layout: 0, reader: 3, alphabet: a0l.clone(), len: l });
                 }
                 // random access (refused today) in the histories of a reader without index
                 let mut a2n = a2.clone();
